@@ -141,6 +141,32 @@ class Arrays:
         self.given.append((a, a.tobytes(), a.dtype.str, a.shape))
         return a
 
+    def matmul_left(self, v):
+        """constant left operand of a matrix product: in the 'csr' world a 2-D array becomes a scipy CSR matrix in a legal
+        but NON-canonical form (column indices unsorted within each row, one entry split into two duplicates), whose three
+        buffers are watched like any other user array"""
+        if self.layout != 'csr' or not isinstance(v, np.ndarray) or v.ndim != 2:
+            return self(v)
+        import scipy.sparse as sp
+        a = np.array(v, dtype=float)
+        data, indices, indptr = [], [], [0]
+        for i in range(a.shape[0]):
+            cols = [j for j in range(a.shape[1]) if a[i, j] != 0.0][::-1]
+            for k_, j in enumerate(cols):
+                if k_ == 0 and len(cols) > 1:
+                    data += [a[i, j] * 0.25, a[i, j] * 0.75]
+                    indices += [j, j]
+                else:
+                    data.append(a[i, j])
+                    indices.append(j)
+            indptr.append(len(data))
+        m = sp.csr_matrix((np.array(data, dtype=float), np.array(indices, dtype=np.int32), np.array(indptr, dtype=np.int32)),
+                          shape=a.shape)
+        for buf in (m.data, m.indices, m.indptr):
+            self.given.append((buf, buf.tobytes(), buf.dtype.str, buf.shape))
+        self.sparse_given = getattr(self, 'sparse_given', 0) + 1
+        return m
+
     def intact(self):
         for a, b, dt, sh in self.given:
             if a.tobytes() != b or a.dtype.str != dt or a.shape != sh:
@@ -163,7 +189,7 @@ def run_world(ops, wc, keep=False):
         st_np = np.random.get_state()
         arrs = Arrays(wc.get('layout', 'C'))
         w = W.World(epoch=wc.get('epoch', 1.7e9))
-        it = interp.Interp(rs, w, hooks={'const': arrs})
+        it = interp.Interp(rs, w, hooks={'const': arrs, 'matmul_left': arrs.matmul_left} if wc.get('layout') == 'csr' else {'const': arrs})
         if wc.get('gc') == 'off':
             gc.disable()
         arrays_ok = True
@@ -341,7 +367,7 @@ def gen_case(seed, cfg):
         {'name': 'W4', 'where': 'here', 'layout': rng.choice(layouts), 'rng_seed': 3, 'epoch': 1.7e9, 'numeric': True},
         {'name': 'W5', 'where': 'here', 'layout': 'readonly', 'rng_seed': 3, 'epoch': 1.7e9, 'numeric': True},
         # other numeric dtypes: only "no write into the user's arrays" and "global RNG untouched" are judged
-        {'name': 'W7', 'where': 'here', 'layout': rng.choice(['float32', 'int32', 'longdouble']), 'rng_seed': 5, 'epoch': 1.7e9,
+        {'name': 'W7', 'where': 'here', 'layout': rng.choice(['float32', 'int32', 'longdouble', 'csr', 'csr']), 'rng_seed': 5, 'epoch': 1.7e9,
          'dtype_only': True},
         # same declaration, but the dual is formulated before the primal
         {'name': 'W6', 'where': 'here', 'layout': 'C', 'rng_seed': 0, 'epoch': 1.7e9, 'dual_first': True},
